@@ -128,7 +128,7 @@ CLAIMS.update({
  "C11": ("exploration",
    "BOUNDED ONLY - mergeBlock and the syncer are map/closure/RPC code outside the generator's subset. " + BC +
    "mergeBlock: exhaustive for 2 positions x 1..5 replicas and 3 positions x 2..4 replicas plus seeded random cases over standard/time/bsi fragments and blocks 0,1,3: the local block and every replica after applying its diffs equal the per-bit majority (ties set), nothing outside the block changes. "
-   "Complete SyncHolder passes over 2..5 in-process replicas with a routed fake client: every fragment of every replica equals the majority, repairs land in the view they were computed for, checksums agree afterwards.",
+   "Complete SyncHolder passes over 2..5 in-process replicas with a routed fake client: every fragment of every replica equals the majority, repairs land in the view they were computed for, checksums agree afterwards; the bit-sliced view of an int field is included (it was a probe without oracle until the defect that made its repair impossible was fixed).",
    "bounded exploration; the oracle is a hand-written majority model; nothing here is a proof.", "bounded stand-in"),
  "C21": ("exploration",
    "BOUNDED ONLY - resize planning (fragSources, resize job generation) is map/closure graph code outside the subset. " + BC +
@@ -161,7 +161,7 @@ BR = ("BOUNDED addition rcheck/roaring (labelled bounded, never counted as prove
 for _k in ("C01", "C02", "C03", "C04", "C05"):
     CLAIMS[_k] = (CLAIMS[_k][0], CLAIMS[_k][1] + " " + BR, CLAIMS[_k][2], CLAIMS[_k][3] + " + bounded stand-in")
 CLAIMS["C05"] = (CLAIMS["C05"][0], CLAIMS["C05"][1] + " Also rcheck/fragment: after every sequence the fragment file (snapshot + op log) is decoded and compared with the in-memory bitmap.", CLAIMS["C05"][2], CLAIMS["C05"][3])
-CLAIMS["C06"] = (CLAIMS["C06"][0], CLAIMS["C06"][1] + " Added under contract: the cluster-message entry (API.ClusterMessage, getMessage, markResizeInstructionComplete) and 20 protobuf decoders (see C27). BOUNDED additions: rcheck/roaring (rejected imports leave the bitmap unchanged; truncated official data is rejected; panics of every decode path are recorded) and rcheck/wire (Unmarshal of empty, random, truncated and bit-flipped bytes for all 28 message types never panics).", CLAIMS["C06"][2], CLAIMS["C06"][3] + " + bounded stand-in")
+CLAIMS["C06"] = (CLAIMS["C06"][0], CLAIMS["C06"][1] + " Added under contract: the cluster-message entry (API.ClusterMessage, getMessage, markResizeInstructionComplete) and 20 protobuf decoders (see C27). BOUNDED additions: rcheck/roaring (rejected imports leave the bitmap unchanged; truncated official data is rejected; panics of every decode path are recorded) and rcheck/wire (Unmarshal of empty, random, truncated and bit-flipped bytes for all 28 message types never panics) and rcheck/cluster (resize-completion messages that arrive late, twice or for a finished job return within 3 s; schema messages naming an unknown index, field or view are answered with an error, not a panic).", CLAIMS["C06"][2], CLAIMS["C06"][3] + " + bounded stand-in")
 CLAIMS["C25"] = (CLAIMS["C25"][0], CLAIMS["C25"][1] + " BOUNDED addition rcheck/stores: the real boltdb attribute store (standalone and through SetRowAttrs/SetColumnAttrs) under random SetAttrs/SetBulkAttrs histories, caller-side mutation of passed and returned maps, reopen, Blocks/BlockData/IndexAttrDiff, against a map model.", CLAIMS["C25"][2], CLAIMS["C25"][3] + " + bounded stand-in")
 
 CLAIMS.update({
